@@ -79,16 +79,17 @@ PROPS['C07'] = dict(
     functions=[BF + 'moregre', BF + 'moregen', BF + 'get_matching_pairs', BF + 'is_valid', BF + 'run', BF + 'get_results',
                MOD + '_get_max_rank', MOD + 'get_max_lec_upper_quota', MOD + '_get_cost', MOD + '_get_cost_sq', MOD + '_get_degree',
                MOD + '_get_profile', MOD + '_get_lec_abs_diffs', MOD + '_get_max_lec_abs_diff', MOD + '_get_sum_lec_abs_diff'],
-    lemmas=[],
+    lemmas=['SUM/le', 'SUM/const', 'C07/greedy-order-total', 'C07/generous-order-total'],
     level='other',
-    level_text='proved for all instance sizes: comparators are the strict lexicographic orders (first / last difference); is_valid == Valid (incl. closure rule); get_matching_pairs; the statistic helpers == the measures; run never raises (every index, comparison and callee precondition), every profile has one entry per rank, optimal_size = -1 iff no enumerated assignment is valid and otherwise the maximum valid size; get_results prints Infeasible iff optimal_size = -1 and otherwise each stored optimum.  NOT proved (bounded stand-in only): that the stored cost / degree / profile / deviation values are the optima (fold invariants for those seven statistics are not written)',
+    level_text='proved for all instance sizes: comparators are the strict lexicographic orders (first / last difference), total on profiles of one length; is_valid == Valid (incl. closure rule); get_matching_pairs; the statistic helpers == the measures; run never raises (every index, comparison and callee precondition), every profile has one entry per rank; fold over the enumeration with a ghost history of the nine statistics: optimal_size = -1 iff no enumerated assignment is valid and otherwise the maximum valid size; each of the eight further accumulators is BOTH a bound (no maximum-size / valid assignment has a better value) AND attained by an enumerated assignment of that class - the initial values (zero profile, largest upper quota, that times the number of lecturers) are shown to dominate every valid assignment (count bounds, sum lemmas), so they never win wrongly; get_results prints Infeasible iff optimal_size = -1 and otherwise each stored optimum.  NOT proved: that itertools.product enumerates every assignment (T11), and the layout of the profile string',
     harness=True, bound='<= 3 students x <= 3 projects x <= 3 lecturers, +-pc, exhaustive optimum by enumeration',
     budget={'quick': 20, 'thorough': 240},
     trusted=['T11 itertools.product enumerates every tuple over range(m) once (completeness of the enumeration is assumed; the fold is proved over whatever it enumerates)',
              'T12 datetimes modelled as seconds; strftime opaque',
              '_get_profile_string modelled as a pure text function of the profile'],
-    assumptions=['optimality of the seven secondary statistics is covered by the bounded stand-in only (labelled bounded)',
-                 'ModelWF precondition from the reader (C10)'])
+    assumptions=['well-formed instance: 0 <= target <= upper quota for every lecturer (precondition of run; for generated files this is C09/quota-order), at least one lecturer',
+                 'ModelWF precondition from the reader (C10)',
+                 'the correspondence between enumerated tuples and matchings (T11 + get_matching_pairs contract) is not composed into one statement; the bounded stand-in compares with an independent enumeration'])
 LP = 'lp_solver:LP_Solver.'
 T_LP = ['T1 PuLP expression algebra: LpVariable, LpAffineExpression, + - * by ints, +=/-=, lpSum and the comparison operators build the constraint with the evident value under any valuation',
         'T2 prob += adds a constraint and never removes one; prob.objective = e replaces only the objective (distinct constraint names: checked by the bounded runs only)',
